@@ -337,7 +337,10 @@ def dict_spec(draw, depth, sat, opts):
     sub = spec_strategy(depth - 1, sat, **opts)
     keys = draw(st.lists(dict_keys, min_size=0, max_size=4, unique_by=lambda k: (type(k).__name__, k)))
     entries = [{"key": k, "opt": draw(st.booleans()), "spec": draw(sub)} for k in keys]
-    return {"t": "dict", "entries": entries, "relaxed": draw(st.integers(0, 3)) == 0}
+    out = {"t": "dict", "entries": entries, "relaxed": draw(st.integers(0, 3)) == 0}
+    if out["relaxed"] and entries and draw(st.booleans()):
+        out["relaxed_at"] = draw(st.integers(0, len(entries) - 1))     # `...: ...` not declared last
+    return out
 
 
 @st.composite
@@ -495,10 +498,13 @@ def build(spec, wrap_custom=True):
         if "entries" not in spec:
             return schema.dict
         d = {}
-        for e in spec["entries"]:
+        at = spec.get("relaxed_at") if spec.get("relaxed") else None
+        for i, e in enumerate(spec["entries"]):
+            if at == i:
+                d[...] = ...
             k = optional(e["key"]) if e["opt"] else e["key"]
             d[k] = build(e["spec"], wrap_custom)
-        if spec.get("relaxed"):
+        if spec.get("relaxed") and ... not in d:
             d[...] = ...
         return schema.dict(d)
     if t == "any":
@@ -587,6 +593,8 @@ def node_labels(spec):
         if t == "dict":
             if s.get("relaxed"):
                 out.add("dict:relaxed")
+                if "relaxed_at" in s:
+                    out.add("dict:relaxed-not-last")
             if any(e["opt"] for e in s.get("entries", [])):
                 out.add("dict:optional")
             if "entries" not in s:
